@@ -1,6 +1,7 @@
 package method_evaluator
 
 import (
+	"slices"
 	"strconv"
 	"ti/base"
 	"ti/context"
@@ -43,6 +44,9 @@ func NewMethodEvaluator(
 	case "self":
 		evaluatedObjectT = base.MakeObject(ctx.GetClass())
 
+		// (the class of self lives in the namespace the body is written in)
+		evaluatedObjectT.SetFrame(ctx.GetFrame())
+
 		if ctx.IsDefineStatic {
 			objectT = base.MakeClass(ctx.GetClass())
 		}
@@ -71,7 +75,9 @@ func NewMethodEvaluator(
 	p.SetLastResolvedMethodT(nil)
 
 	if ctx.IsCheckRound() && !p.IsLookahead {
-		point := p.FileName + ":" + strconv.Itoa(p.Row)
+		// the row of the call's own tokens (Row is already one further when the
+		// call ends its line)
+		point := p.FileName + ":" + strconv.Itoa(p.ErrorRow)
 		callerKey := ctx.GetFrame() + ctx.GetClass() + ctx.GetMethod()
 
 		for _, owner := range calleeOwners(ctx, objectT, evaluatedObjectT, methodIdentifierT.ToString()) {
@@ -171,7 +177,11 @@ func calleeOwners(
 			methodT = base.GetMethodT(frame, class, method, false)
 		}
 
-		owners = append(owners, owner(frame, class, methodT))
+		// (the members of a union receiver may share the ancestor that defines
+		// the method: one call, one entry)
+		if next := owner(frame, class, methodT); !slices.Contains(owners, next) {
+			owners = append(owners, next)
+		}
 	}
 
 	return owners
